@@ -24,6 +24,31 @@ def corpus(tier, seed):
     return progs
 
 
+def real_model_texts():
+    from . import c14
+    import os
+    out = []
+    p = os.path.join(common.REPO, 'tests', 'resources', 'Simple_Model.xtuml')
+    if os.path.exists(p):
+        out.append(open(p, encoding='utf-8').read())
+    p = os.path.join(common.REPO, 'tests', 'test_bridgepoint', 'test_interpret.py')
+    if os.path.exists(p):
+        import ast
+        for node in ast.parse(open(p, encoding='utf-8').read()).body:
+            if isinstance(node, ast.Assign) and getattr(node.targets[0], 'id', '') == 'model' and \
+                    isinstance(node.value, ast.Constant) and isinstance(node.value.value, str):
+                out.append(node.value.value)
+    # (only models that hold an action body)
+    from .. import bpread, ooaschema
+    schema = ooaschema.full()
+
+    def has_body(text):
+        rows = bpread.rows_of(text, schema)
+        return any((r.get('Action_Semantics_internal') or '').strip()
+                   for k in ('S_SYNC', 'S_BRG', 'O_TFR', 'O_DBATTR') for r in rows.get(k, []))
+    return [t for t in out if has_body(t)]
+
+
 def build_items(tier, seed, facts=False, cases=('lower', 'lower', 'upper', 'mixed'), strict=False):
     rnd = random.Random(seed + 5)
     progs = corpus(tier, seed)
@@ -43,6 +68,12 @@ def run(pid, tier, replay_path, facts, rule, model, assumptions, module='OalTrac
     items = [common.read_json(replay_path)['item']] if replay_path else (
         build_items(tier, seed, facts, cases, strict) if cases else build_items(tier, seed, facts))
     runs = [{'items': items[i:i + 6]} for i in range(0, len(items), 6)]
+    if not replay_path and pid == PID:
+        # the action bodies of the real models of the repository's tests (one run per model, one event per body): the tree
+        # a body parses to must come back from prebuilding and generating text
+        runs += [{'items': [{'model': text}]} for text in real_model_texts()]
+    elif replay_path and 'model' in items[0]:
+        runs = [{'items': [items[0]]}]
     traces = replay.replay('prebuildgen', {'schema': oalgen.OAL_SCHEMA}, runs, timeout=3000)
     verdicts, st = trace.validate(module, consts, traces, modules=list(mods))
     accepted = 0
@@ -61,7 +92,7 @@ def run(pid, tier, replay_path, facts, rule, model, assumptions, module='OalTrac
         else:
             e = v.event()
             sig = {'clause': v.clause, 'home': e['home'], 'err': e['err'].split(':')[0][:60]}
-            rep.failure(sig, {'item': r['items'][v.step - 1], 'text': e['text'], 'generated': e['gen'], 'err': e['err'],
+            rep.failure(sig, {'item': r['items'][min(v.step, len(r['items'])) - 1], 'text': e['text'], 'generated': e['gen'], 'err': e['err'],
                               'clause': v.clause, 'real': e['real'], 'facts': e.get('facts'), 'casediff': e.get('casediff'),
                               'spec_expected': repr(v.expected)[:3000]})
     rc = rep.finish()
@@ -87,6 +118,9 @@ def check(tier, replay_path=None):
              'was written for (OalSyntax!StripB) and that prebuilding the generated text generates the same text again',
         model='OalSyntax.tla (Unparse, StripB) / OalTrace.tla (tree, regenerates_same_text, consistent)',
         assumptions=[
+            'for the action bodies of the real models (tests/test_bridgepoint/test_interpret.py: 26 bodies) the tree is the one the '
+            'parser makes of the original text; the optional words bridge / transform and the specification name in front of a '
+            'constant are not compared there (the originals leave them out, the generator writes them)',
             'event statements and port messages are not in this corpus (no state machines or ports are synthesised); arrays are '
             'variables (no array-valued attributes or parameters)',
             'the callables an action invokes are declared in the model with stub bodies',
